@@ -1036,8 +1036,9 @@ def derivative_curve(obj):
     pkl = helpers.curve_deriv_cpts(obj.dimension, obj.degree, obj.knotvector, obj.ctrlpts,
                                           rs=(0, obj.ctrlpts_size - 1), deriv_order=1)
 
-    # Generate the derivative curve (on the same parametric domain as the input)
-    curve = obj.__class__(normalize_kv=obj._kv_normalize)
+    # Generate the derivative curve. It lives on the parametric domain of the input: its knot vector (the input's without
+    # the first and the last knot) must be kept as it is, also when it does not span [0, 1] (unclamped input)
+    curve = obj.__class__(normalize_kv=False)
     curve.degree = obj.degree - 1
     curve.ctrlpts = pkl[1][0:-1]
     curve.knotvector = obj.knotvector[1:-1]
@@ -1326,7 +1327,9 @@ def derivative_surface(obj):
     for i in range(0, len(pkl[1][0]) - 1):
         ctrlpts2d_u.append(pkl[1][0][i])
 
+    # The derivative surfaces live on the parametric domain of the input: their knot vectors must be kept as computed
     surf_u = copy.deepcopy(obj)
+    surf_u._kv_normalize = False
     surf_u.degree_u = obj.degree_u - 1
     surf_u.ctrlpts2d = ctrlpts2d_u
     surf_u.knotvector_u = obj.knotvector_u[1:-1]
@@ -1337,6 +1340,7 @@ def derivative_surface(obj):
         ctrlpts2d_v.append(pkl[0][1][i][0:-1])
 
     surf_v = copy.deepcopy(obj)
+    surf_v._kv_normalize = False
     surf_v.degree_v = obj.degree_v - 1
     surf_v.ctrlpts2d = ctrlpts2d_v
     surf_v.knotvector_v = obj.knotvector_v[1:-1]
@@ -1347,7 +1351,7 @@ def derivative_surface(obj):
         ctrlpts2d_uv.append(pkl[1][1][i][0:-1])
 
     # Generate the derivative surface (on the same parametric domain as the input)
-    surf_uv = obj.__class__(normalize_kv=obj._kv_normalize)
+    surf_uv = obj.__class__(normalize_kv=False)
     surf_uv.degree_u = obj.degree_u - 1
     surf_uv.degree_v = obj.degree_v - 1
     surf_uv.ctrlpts2d = ctrlpts2d_uv
